@@ -1,6 +1,240 @@
-(* C20: compile-time literals denote the number that is written. *)
-From V Require Import Base.Word C15.GenArith C15.BigIntModel C01.MontModel C20.Literals.
+(* C20 -- property theorems only: pinned statements, each closed by `exact`.
+   Compile-time literals (MontFp!, BigInt!, Fp::new, Fp::from_sign_and_limbs) denote the number
+   that is written; the derive macro computes the limb count, modulus limbs and roots of unity
+   that run-time arithmetic gives.  W = Wn N = 2^(64 N), N = length m, std = C01's decoder. *)
+From V Require Import Base.Word C15.GenArith C15.BigIntModel C15.BitsProofs
+  C01.MontModel C01.MontProofs
+  C20.Literals C20.ParseProofs C20.MontFpProofs C20.DeriveProofs C20.SpecProofs.
 
-Example C20_str_to_limbs_ex :
-  str_to_limbs_u64 [45; 48; 120; 49; 48] = Some (false, [16]).
-Proof. vm_compute; reflexivity. Qed.
+(* ---------- parse_value: string -> sign and minimal limbs ---------- *)
+
+Theorem C20_parse_literal_value : forall radix upper neg ds,
+  (radix = 2 \/ radix = 8 \/ radix = 10 \/ radix = 16) -> ds <> [] -> Forall (is_digit_char radix) ds ->
+  parse_literal (literal neg radix upper ds)
+  = Some (if neg then - digits_value radix ds 0 else digits_value radix ds 0).
+Proof. exact parse_literal_value. Qed.
+
+Theorem C20_parse_literal_plus : forall radix upper neg ds,
+  (radix = 2 \/ radix = 8 \/ radix = 10 \/ radix = 16) -> ds <> [] -> Forall (is_digit_char radix) ds ->
+  parse_literal (literal neg radix upper (43 :: ds))
+  = Some (if neg then - digits_value radix ds 0 else digits_value radix ds 0).
+Proof. exact parse_literal_plus. Qed.
+
+Theorem C20_parse_underscore : forall radix l1 l2 acc,
+  parse_radix_digits radix (l1 ++ 95 :: l2) acc = parse_radix_digits radix (l1 ++ l2) acc.
+Proof. exact parse_radix_digits_underscore. Qed.
+
+Theorem C20_digits_value_leading_zero : forall radix ds,
+  digits_value radix (48 :: ds) 0 = digits_value radix ds 0.
+Proof. exact digits_value_leading_zero. Qed.
+
+Theorem C20_to_radix16_le : forall v, 0 <= v ->
+  let d := to_radix16_le v in
+  Forall (fun h => 0 <= h < 2 ^ 4) d /\ dval 4 d = v /\ d <> [] /\ (v = 0 -> d = [0]) /\ (0 < v -> last d 0 <> 0).
+Proof. exact to_radix16_le_spec. Qed.
+
+Theorem C20_limbs_of_hexits : forall d, Forall (fun h => 0 <= h < 2 ^ 4) d -> d <> [] ->
+  let l := limbs_of_hexits d in
+  wf l /\ val l = dval 4 d /\ l <> [] /\ (last d 0 <> 0 -> last l 0 <> 0) /\ (d = [0] -> l = [0]).
+Proof. exact limbs_of_hexits_spec. Qed.
+
+Theorem C20_str_to_limbs : forall s z, parse_literal s = Some z ->
+  exists limbs, str_to_limbs_u64 s = Some (negb (z <? 0), limbs) /\
+    wf limbs /\ val limbs = Z.abs z /\ limbs <> [] /\
+    (z = 0 -> limbs = [0]) /\ (z <> 0 -> last limbs 0 <> 0).
+Proof. exact str_to_limbs_spec. Qed.
+
+Theorem C20_parse_value : forall radix upper neg ds,
+  (radix = 2 \/ radix = 8 \/ radix = 10 \/ radix = 16) -> ds <> [] -> Forall (is_digit_char radix) ds ->
+  let V := digits_value radix ds 0 in
+  exists limbs, str_to_limbs_u64 (literal neg radix upper ds) = Some (negb (neg && (0 <? V)), limbs) /\
+    wf limbs /\ val limbs = V /\ (V = 0 -> limbs = [0]) /\ (V <> 0 -> last limbs 0 <> 0).
+Proof. exact parse_value. Qed.
+
+Theorem C20_limbs_fit_iff : forall limbs N, wf limbs -> limbs <> [] ->
+  (limbs = [0] \/ last limbs 0 <> 0) -> (0 < N)%nat ->
+  ((length limbs <= N)%nat <-> val limbs < Wn N).
+Proof. exact limbs_fit_iff. Qed.
+
+(* "-0x00ff" : negative, hex, leading zeros *)
+Example C20_parse_value_example :
+  Forall (is_digit_char 16) [48; 48; 102; 70] /\
+  literal true 16 false [48; 48; 102; 70] = [45; 48; 120; 48; 48; 102; 70] /\
+  str_to_limbs_u64 [45; 48; 120; 48; 48; 102; 70] = Some (false, [255]).
+Proof. vm_compute. repeat split; repeat constructor; discriminate. Qed.
+
+(* ---------- the const path ---------- *)
+
+Theorem C20_const_is_valid : forall m a, wf m -> wf a -> length a = length m ->
+  const_is_valid m a = (val a <? val m).
+Proof. exact const_is_valid_spec. Qed.
+
+Theorem C20_const_mul : forall m a b, wf m -> wf a -> wf b ->
+  length a = length m -> length b = length m ->
+  val m mod 2 = 1 -> val b < val m ->
+  let r := const_mul m a b in
+  wf r /\ length r = length m /\ val r < val m /\
+  (val r * Wn (length m)) mod val m = (val a * val b) mod val m.
+Proof. exact const_mul_spec. Qed.
+
+Theorem C20_fp_new : forall m e, wf m -> wf e -> length e = length m -> val m mod 2 = 1 ->
+  let r := fp_new m e in
+  wf r /\ length r = length m /\ val r < val m /\
+  val r = (val e * Wn (length m)) mod val m.
+Proof. exact fp_new_spec. Qed.
+
+Theorem C20_from_sign_and_limbs : forall m (pos : bool) limbs, wf m -> wf limbs ->
+  val m mod 2 = 1 -> (length limbs <= length m)%nat ->
+  exists r, from_sign_and_limbs m pos limbs = LitOk r /\
+    wf r /\ length r = length m /\ val r < val m /\
+    val r = (signed pos (val limbs) * Wn (length m)) mod val m.
+Proof. exact from_sign_and_limbs_spec. Qed.
+
+Theorem C20_from_sign_and_limbs_std : forall m (pos : bool) limbs, wf m -> wf limbs ->
+  val m mod 2 = 1 -> (length limbs <= length m)%nat ->
+  exists r, from_sign_and_limbs m pos limbs = LitOk r /\
+    wf r /\ length r = length m /\ val r < val m /\
+    std m r = signed pos (val limbs) mod val m.
+Proof. exact from_sign_and_limbs_std. Qed.
+
+Theorem C20_from_sign_and_limbs_too_long : forall m pos limbs, (length m < length limbs)%nat ->
+  from_sign_and_limbs m pos limbs = LitPanic.
+Proof. exact from_sign_and_limbs_too_long. Qed.
+
+(* secp256k1 base field (no spare bit): operand 2^256 - 1 >= p, negative sign *)
+Definition secp_m : list Z :=
+  [18446744069414583343; 18446744073709551615; 18446744073709551615; 18446744073709551615].
+Example C20_from_sign_and_limbs_example :
+  let all1 := [18446744073709551615; 18446744073709551615; 18446744073709551615; 18446744073709551615] in
+  val secp_m mod 2 = 1 /\ has_spare_bit secp_m = false /\ val secp_m <= val all1 /\
+  fst (mul_without_cond_subtract secp_m all1 (R2_of secp_m)) = true /\
+  match from_sign_and_limbs secp_m false all1 with
+  | LitOk r => std secp_m r = (- val all1) mod val secp_m
+  | _ => False
+  end.
+Proof. vm_compute. repeat split; try reflexivity. discriminate. Qed.
+
+(* ---------- MontFp! ---------- *)
+
+Theorem C20_montfp : forall m s z, wf m -> val m mod 2 = 1 ->
+  parse_literal s = Some z -> Z.abs z < Wn (length m) ->
+  exists r, montfp m s = LitOk r /\
+    wf r /\ length r = length m /\ val r < val m /\
+    val r = (z * Wn (length m)) mod val m /\
+    std m r = z mod val m.
+Proof. exact montfp_spec. Qed.
+
+Theorem C20_montfp_literal : forall m radix upper (neg : bool) ds, wf m -> val m mod 2 = 1 ->
+  (radix = 2 \/ radix = 8 \/ radix = 10 \/ radix = 16) -> ds <> [] -> Forall (is_digit_char radix) ds ->
+  let V := digits_value radix ds 0 in
+  let z := if neg then - V else V in
+  V < Wn (length m) ->
+  exists r, montfp m (literal neg radix upper ds) = LitOk r /\
+    wf r /\ length r = length m /\ val r < val m /\
+    val r = (z * Wn (length m)) mod val m /\ std m r = z mod val m.
+Proof. exact montfp_literal. Qed.
+
+Theorem C20_montfp_too_long : forall m s z, m <> [] ->
+  parse_literal s = Some z -> Wn (length m) <= Z.abs z ->
+  montfp m s = LitPanic.
+Proof. exact montfp_too_long. Qed.
+
+Theorem C20_montfp_reject : forall m s, parse_literal s = None -> montfp m s = LitReject.
+Proof. exact montfp_reject. Qed.
+
+(* MontFp!("-0o17") over F_7 : -15 mod 7 = 6 *)
+Example C20_montfp_example :
+  parse_literal [45; 48; 111; 49; 55] = Some (-15) /\
+  match montfp [7] [45; 48; 111; 49; 55] with LitOk r => std [7] r = 6 | _ => False end /\
+  montfp [7] [48; 120; 49; 48; 48; 48; 48; 48; 48; 48; 48; 48; 48; 48; 48; 48; 48; 48; 48] = LitPanic.
+Proof. vm_compute. repeat split; reflexivity. Qed.
+
+(* ---------- BigInt! ---------- *)
+
+Theorem C20_bigint_macro : forall N s z, (0 < N)%nat -> parse_literal s = Some z ->
+  (0 <= z < Wn N ->
+     exists l, bigint_macro N s = LitOk l /\ wf l /\ length l = N /\ val l = z) /\
+  (z < 0 -> bigint_macro N s = LitPanic) /\
+  (Wn N <= z -> bigint_macro N s = LitPanic).
+Proof. exact bigint_macro_spec. Qed.
+
+Example C20_bigint_macro_example :
+  bigint_macro 2 [48; 98; 49; 48; 49] = LitOk [5; 0] /\ bigint_macro 2 [45; 49] = LitPanic.
+Proof. vm_compute. split; reflexivity. Qed.
+
+(* ---------- constant = run-time conversion of the same integer ---------- *)
+
+Theorem C20_const_eq_from_str : forall (d : bool) m lit dec z, wf m -> val m mod 2 = 1 ->
+  parse_literal lit = Some z -> parse_signed dec = Some z -> Z.abs z < Wn (length m) ->
+  exists r, montfp m lit = LitOk r /\ from_str d m dec = StrOk r.
+Proof. exact const_eq_from_str. Qed.
+
+Theorem C20_const_eq_from_biguint : forall (d : bool) m lit z, wf m -> val m mod 2 = 1 -> last m 0 <> 0 ->
+  parse_literal lit = Some z -> Z.abs z < Wn (length m) ->
+  exists r r0, montfp m lit = LitOk r /\ from_biguint d m (Z.abs z) = Some r0 /\
+    (if z <? 0 then neg_in_place m r0 else r0) = r.
+Proof. exact const_eq_from_biguint. Qed.
+
+Theorem C20_radix10_is_from_str_parser : forall s, bigint_from_str_radix 10 s = parse_signed s.
+Proof. exact bigint_from_str_radix_10. Qed.
+
+(* ---------- the derive macro ---------- *)
+
+Theorem C20_derive_limb_count : forall p, 0 < p ->
+  exists k, derive_limb_count p = Some (Z.of_nat k) /\ (1 <= k)%nat /\ p <= Wn k /\
+    (k = 1%nat \/ Wn (k - 1) < p).
+Proof. exact derive_limb_count_spec. Qed.
+
+Theorem C20_derive_limb_count_ceil : forall p, 1 < p -> (forall j, p <> Wn j) ->
+  derive_limb_count p = Some ((Z.log2 p + 1 + 63) / 64).
+Proof. exact derive_limb_count_ceil. Qed.
+
+Theorem C20_derive_limb_count_odd : forall p, 1 < p -> p mod 2 = 1 ->
+  derive_limb_count p = Some ((Z.log2 p + 1 + 63) / 64).
+Proof. exact derive_limb_count_odd. Qed.
+
+Theorem C20_derive_trace : forall p, 1 < p ->
+  exists s t, derive_trace p = Some t /\ 0 <= s /\ t mod 2 = 1 /\ 0 < t /\ p - 1 = 2 ^ s * t.
+Proof. exact derive_trace_spec. Qed.
+
+Theorem C20_derive_trace_eq_two_adic : forall m, wf m -> val m mod 2 = 1 -> 1 < val m ->
+  exists s t, two_adic m = Some (s, t) /\ wf t /\ length t = length m /\ 0 <= s /\
+    derive_trace (val m) = Some (val t) /\ val m - 1 = 2 ^ s * val t /\ val t mod 2 = 1.
+Proof. exact derive_trace_eq_two_adic. Qed.
+
+Theorem C20_modpow : forall b e n, 0 <= e -> 0 < n -> modpow b e n = (b ^ e) mod n.
+Proof. exact modpow_spec. Qed.
+
+Theorem C20_to_string_roundtrip : forall v, 0 <= v -> parse_literal (to_string v) = Some v.
+Proof. exact parse_literal_to_string. Qed.
+
+Theorem C20_derive_macro : forall p g small, 1 < p -> p mod 2 = 1 -> 0 <= g ->
+  match small with Some (b, k) => 0 < b ^ k | None => True end ->
+  exists d ml s t,
+    derive_macro p g small = Some d /\
+    d_limbs d = (Z.log2 p + 1 + 63) / 64 /\ d_limbs d = Z.of_nat (length ml) /\
+    d_modulus d = ml /\ wf ml /\ val ml = p /\ last ml 0 <> 0 /\
+    two_adic ml = Some (s, t) /\ 0 <= s /\ p - 1 = 2 ^ s * val t /\ val t mod 2 = 1 /\
+    (exists r, d_root d = LitOk r /\ wf r /\ length r = length ml /\ val r < p /\
+               std ml r = (g ^ val t) mod p) /\
+    (g < Wn (length ml) ->
+       exists r, d_generator d = LitOk r /\ wf r /\ length r = length ml /\ val r < p /\
+                 std ml r = g mod p) /\
+    match small with
+    | Some (b, k) => exists r, d_large d = Some (LitOk r) /\ wf r /\ length r = length ml /\ val r < p /\
+                               std ml r = (g ^ (val t / b ^ k)) mod p
+    | None => d_large d = None
+    end.
+Proof. exact derive_macro_spec. Qed.
+
+(* p = 97 = 2^5 * 3 + 1, g = 5, small subgroup 3^1 *)
+Example C20_derive_macro_example :
+  match derive_macro 97 5 (Some (3, 1)) with
+  | Some d => d_limbs d = 1 /\ d_modulus d = [97] /\ two_adic [97] = Some (5, [3]) /\
+              match d_root d, d_large d with
+              | LitOk r, Some (LitOk l) => std [97] r = 5 ^ 3 mod 97 /\ std [97] l = 5 ^ 1 mod 97
+              | _, _ => False
+              end
+  | None => False
+  end.
+Proof. vm_compute. repeat split; reflexivity. Qed.
